@@ -7,6 +7,13 @@ void GMGPolar::solve()
     LIKWID_START("Solve");
     auto start_solve = std::chrono::high_resolution_clock::now();
 
+    /* Statistics and the smoother selection describe this solve only. */
+    residual_norms_.clear();
+    exact_errors_.clear();
+    if (extrapolation_ == ExtrapolationType::COMBINED) {
+        full_grid_smoothing_ = true;
+    }
+
     /* ---------------------------- */
     /* Initialize starting solution */
     /* ---------------------------- */
